@@ -632,6 +632,9 @@ class _Interp(object):
                 base = self.expr(n.value)
             except Unknown:
                 base = None
+            if isinstance(base, FuncRef) and base.node is None and base.module is not None:
+                # a member of a sub-module of the package imported by name (`from ural import patterns` ... patterns.PROTOCOL_RE)
+                return _Interp(self.repo, base.module, {}, self.depth).expr(ast.Name(id=n.attr, ctx=ast.Load()))
             if isinstance(base, Obj):
                 if n.attr in base.attrs:
                     return base.attrs[n.attr]
@@ -746,6 +749,17 @@ class _Interp(object):
                 kwargs[kw.arg] = self.expr(kw.value)
         if isinstance(f, ast.Attribute):
             dn = self.repo.dotted(self.module, f) if not (isinstance(f.value, ast.Name) and f.value.id in self.env) else None
+            if dn is not None and dn.startswith(self.repo.package + "."):
+                # utils.f(...) / patterns.RE.match(...) through a sub-module imported by name: a value of the package like any other
+                try:
+                    owner = self.expr(f.value)
+                except Unknown:
+                    owner = None
+                if isinstance(owner, FuncRef) and owner.node is None and owner.module is not None:
+                    callee = _Interp(self.repo, owner.module, {}, self.depth).expr(ast.Name(id=f.attr, ctx=ast.Load()))
+                    return self.call_value(callee, args, kwargs)
+                if owner is not None and not isinstance(owner, FuncRef):
+                    dn = None
             if dn is None:
                 base = self.expr(f.value)
                 if isinstance(base, Obj):
